@@ -123,6 +123,11 @@ def run_config(cfg, strategy=None, want_choices=False):
 
         def doPoll(self):
             ev(ev='poll', m=name)
+            dur = cfg.get('polldur', {}).get(name)
+            if dur:     # a poll that takes time: may be in flight when the node is shut down
+                ev(ev='poll_long', m=name)
+                s.sleep(dur)
+                ev(ev='poll_end', m=name)
 
         def shutdownModule(self):
             ev(ev='shutdown', m=name)
@@ -139,6 +144,8 @@ def run_config(cfg, strategy=None, want_choices=False):
                     doPoll=doPoll, shutdownModule=shutdownModule, stopPollThread=stopPollThread,
                     joinPollThread=joinPollThread)
         body['enablePoll'] = name in cfg.get('polls', [])
+        if cfg.get('polldur'):
+            body['pollinterval'] = 1.0     # so that a poll starts at the moment the shutdown begins
         if name in cfg.get('writes', []):
             body['w'] = Parameter('w', FloatRange(), default=0, readonly=False)
 
